@@ -17,6 +17,7 @@ type Addr struct {
 	Key    []byte // nil = absent
 	KeyID  int    // model number of Key
 	HasKey bool
+	Pad    []byte // extra bytes sent after the 48-byte key (account lookup looks at the first 48 only)
 }
 
 type Checkpoint struct {
@@ -152,7 +153,7 @@ func (inst *Instance) ExecCtx(ctx context.Context, op *Op) ([]Obs, error) {
 	creds := &checker.Credentials{Client: op.Client, IP: op.IP, RequestID: "vh"}
 	keyOf := func(a Addr) []byte {
 		if a.HasKey {
-			return a.Key
+			return append(append([]byte{}, a.Key...), a.Pad...)
 		}
 		return nil
 	}
